@@ -604,6 +604,9 @@ class Evaluator:
             # array element/slice store: record as an effect on the array term
             self.ext.array_store(self, obj, idx, v, fr, node)
             return
+        if isinstance(obj, self.ext.NdArr):
+            self.ext.nd_setitem(self, obj, idx, v, fr, node)
+            return
         self.unsupported(f"subscript store on {obj!r}", node, fr)
 
     def key(self, v):
